@@ -8,7 +8,7 @@
 From Coq Require Import String.
 From XSG.Model Require Import Strings Convert Necessity Element Parser Dom Spec Render Lexer.
 From XSG.Proofs Require Import ElementProofs SkelProofs DomEquiv SpecProofs ReprDefs ExactProofs EventLevel
-  InferProofs LexerProofs LexerC11 LexerEmpty LexerCData LexerSer LexerDoc.
+  InferProofs UnionProofs AdmitProofs LexerProofs LexerC11 LexerEmpty LexerCData LexerSer LexerDoc.
 
 (* the hypotheses are a boolean on the tree: plain valid names; attribute keys non-empty, plain,
    without `=`, valid UTF-8, pairwise distinct; a value does not contain its own quote (it may
@@ -92,6 +92,50 @@ Example C11_bytes_example_ser :
   /\ exists e, into_struct_bytes (ser_forest ex_doc) = Ok e.
 Proof. exact example_ser. Qed.
 
+(* the bridge: every DOM-level theorem that starts from `run_dom docs = Some e` (C01, C03, C06, C09)
+   is a theorem about the library on the written bytes *)
+Theorem LEX_bytes_run_iff : forall docs e, forallb bdoc_ok docs = true ->
+  (run_bytes (map ser_forest docs) = Ok e <-> run_dom (map abs_doc docs) = Some e).
+Proof. exact bytes_run_iff. Qed.
+
+(* C06 from bytes *)
+Theorem C06_bytes_order : forall docs docs' m,
+  forallb bdoc_ok docs = true -> forallb bdoc_ok docs' = true ->
+  docs <> [] -> Forall (Forall wf_node) (map abs_doc docs) ->
+  Forall (fun p => elem_names p = [m]) (map abs_doc docs) ->
+  Permutation.Permutation docs docs' ->
+  exists e e', run_bytes (map ser_forest docs) = Ok e /\ run_bytes (map ser_forest docs') = Ok e'
+               /\ same_schema e e'.
+Proof. exact bytes_C06_order. Qed.
+Theorem C06_bytes_idem : forall docs d m,
+  forallb bdoc_ok docs = true ->
+  docs <> [] -> Forall (Forall wf_node) (map abs_doc docs) ->
+  Forall (fun p => elem_names p = [m]) (map abs_doc docs) ->
+  In d docs ->
+  exists e e', run_bytes (map ser_forest docs) = Ok e /\ run_bytes (map ser_forest (docs ++ [d])) = Ok e'
+               /\ same_schema e e'.
+Proof. exact bytes_C06_idem. Qed.
+
+(* C01 from bytes *)
+Theorem C01_bytes_tree_admits : forall docs m e,
+  forallb bdoc_ok docs = true ->
+  docs <> [] -> Forall (Forall wf_node) (map abs_doc docs) ->
+  Forall (fun p => elem_names p = [m]) (map abs_doc docs) ->
+  run_bytes (map ser_forest docs) = Ok e ->
+  forall d r, In d docs -> doc_root (abs_doc d) = Some r -> TreeAdmits e r.
+Proof. exact bytes_C01_tree_admits. Qed.
+
+(* C09 from bytes *)
+Theorem C09_bytes_first_appearance : forall docs e,
+  forallb bdoc_ok docs = true ->
+  docs_ok (map abs_doc docs) = true -> Forall (Forall wf_node) (map abs_doc docs) ->
+  run_bytes (map ser_forest docs) = Ok e ->
+  forall p x, node_at e p = Some x ->
+    map snd (eattrs (snd x)) = dedup (flat_map oattrs (occs p (doc_roots (map abs_doc docs))))
+    /\ map cname (isort by_pos (echildren (snd x)))
+       = dedup (flat_map okidnames (occs p (doc_roots (map abs_doc docs)))).
+Proof. exact bytes_C09_first_appearance. Qed.
+
 Print Assumptions LEX_ser_node.
 Print Assumptions LEX_ser_start_tag.
 Print Assumptions LEX_ser_empty_tag.
@@ -106,3 +150,8 @@ Print Assumptions C11_bytes_structure_only_render.
 Print Assumptions C11_bytes_same_abstraction.
 Print Assumptions C11_bytes_revalue.
 Print Assumptions C11_bytes_example_ser.
+Print Assumptions LEX_bytes_run_iff.
+Print Assumptions C06_bytes_order.
+Print Assumptions C06_bytes_idem.
+Print Assumptions C01_bytes_tree_admits.
+Print Assumptions C09_bytes_first_appearance.
